@@ -1,28 +1,140 @@
 (* C04 -- Malformed input is rejected cleanly and in bounded time.
    For every loader K with an exception-faithful mirror `K_load : list Z -> result info` (Model.Parse_K,
    reading through a BytesIO over the input): for EVERY byte string (c04_input: a list of bytes no longer
-   than a BytesIO can hold) the mirror returns Ok or raises EMutagen (mutagen.MutagenError or a subclass)
-   -- never IndexError, struct.error, ValueError, UnicodeError, OverflowError, ZeroDivisionError, KeyError,
-   EOFError, and never EOutOfFuel, where the fuel the wrapper supplies to the loader's loops is linear in
-   the input length (`K_fuel`).  The mirrors are tied to /repo by the outcome-class correspondence of
-   harness/props/c04.py. *)
+   than 2^62, a BytesIO cannot hold more) the mirror returns Ok or raises EMutagen (mutagen.MutagenError or
+   a subclass) -- never IndexError, struct.error, ValueError, UnicodeError, OverflowError,
+   ZeroDivisionError, KeyError, TypeError, EOFError, and never EOutOfFuel, where the fuel the wrapper
+   hands to the loader's loops is a * len + b (`C04_K_fuel`, by reflexivity: it is the wrapper's definition).
+   The mirrors are tied to /repo by the outcome-class correspondence of harness/props/c04.py. *)
 From Coq Require Import ZArith List Bool Lia.
 Import ListNotations.
-Require Import Base.Py Model.Parse_base Model.Parse_musepack Proofs.C04_lib Proofs.C04_musepack.
+Require Import Base.Py Model.Parse_base Model.Parse_musepack Model.Parse_wavpack Model.Parse_smf
+  Model.Parse_vcomment Model.Parse_ogg Model.Parse_apev2 Model.Parse_mp4 Model.Parse_headers Model.Parse_id3
+  Proofs.C04_lib Proofs.C04_musepack Proofs.C04_wavpack Proofs.C04_smf Proofs.C04_vcomment Proofs.C04_ogg
+  Proofs.C04_apev2 Proofs.C04_mp4 Proofs.C04_headers Proofs.C04_id3.
 Open Scope Z_scope.
 
-(* ---- Musepack: MusepackInfo.__init__ ---- *)
+(* ---- 1. Musepack: MusepackInfo.__init__ (ID3v2 skip, SV8 packet loop, SH/RG packets, SV4-7 header) ---- *)
 Theorem C04_Musepack_total : forall bytes, c04_input bytes ->
   match musepack_load bytes with Ok _ => True | Raise e => e = EMutagen end.
 Proof. exact musepack_total. Qed.
 Print Assumptions C04_Musepack_total.
-(* the SV8 packet loop gets len + 1 units of fuel (one per packet) *)
 Theorem C04_Musepack_fuel : forall bytes,
   musepack_load bytes = prun (mpc_init (Z.to_nat (1 * zlen bytes + 1))) bytes.
 Proof. reflexivity. Qed.
 Print Assumptions C04_Musepack_fuel.
 
-(* non-vacuity: a valid SV8 header is accepted; truncated / looping / overflowing ones are rejected *)
+(* ---- 2. WavPack: _WavPackHeader.from_fileobj + WavPackInfo.__init__ (block walk) ---- *)
+Theorem C04_WavPack_total : forall bytes, c04_input bytes ->
+  match wavpack_load bytes with Ok _ => True | Raise e => e = EMutagen end.
+Proof. exact wavpack_total. Qed.
+Print Assumptions C04_WavPack_total.
+Theorem C04_WavPack_fuel : forall bytes,
+  wavpack_load bytes = prun (wv_init (Z.to_nat (1 * zlen bytes + 1))) bytes.
+Proof. reflexivity. Qed.
+Print Assumptions C04_WavPack_fuel.
+
+(* ---- 3. SMF: _var_int, _read_track, _read_midi_length, SMF.load ---- *)
+Theorem C04_SMF_total : forall bytes, c04_input bytes ->
+  match smf_load bytes with Ok _ => True | Raise e => e = EMutagen end.
+Proof. exact smf_total. Qed.
+Print Assumptions C04_SMF_total.
+Theorem C04_SMF_fuel : forall bytes,
+  smf_load bytes = prun (pconvert_io (smf_read_midi_length (Z.to_nat (1 * zlen bytes + 1)))) bytes.
+Proof. reflexivity. Qed.
+Print Assumptions C04_SMF_fuel.
+(* the event loop of one track and the var-int reader, on any chunk, with fuel len + 1 *)
+Theorem C04_SMF_track_total : forall chunk,
+  match smf_read_track chunk with Ok _ => True | Raise e => e = EMutagen end.
+Proof. intro chunk. pose proof (read_track_total chunk) as H. unfold rspec in H. destruct (smf_read_track chunk); auto. Qed.
+Print Assumptions C04_SMF_track_total.
+
+(* ---- 4. Vorbis comment: VComment.load(errors='replace', framing=True) ---- *)
+Theorem C04_VComment_total : forall bytes, c04_input bytes ->
+  match vcomment_load bytes with Ok _ => True | Raise e => e = EMutagen end.
+Proof. exact vcomment_total. Qed.
+Print Assumptions C04_VComment_total.
+Theorem C04_VComment_fuel : forall bytes,
+  vcomment_load bytes = prun (vc_load_body (Z.to_nat (1 * zlen bytes + 1))) bytes.
+Proof. reflexivity. Qed.
+Print Assumptions C04_VComment_fuel.
+
+(* ---- 5. Ogg: OggPage.__init__ (Model.Ogg.page_parse) + OggVorbisInfo.__init__ under OggFileType.load ---- *)
+Theorem C04_OggVorbis_total : forall bytes,
+  match oggvorbis_load bytes with Ok _ => True | Raise e => e = EMutagen end.
+Proof. exact oggvorbis_total. Qed.
+Print Assumptions C04_OggVorbis_total.
+(* OggVorbisInfo(fileobj) on its own lets exactly one more class out, EOFError, which load maps *)
+Theorem C04_OggVorbisInfo_cases : forall bytes,
+  match oggvorbis_info_load bytes with Ok _ => True | Raise e => e = EMutagen \/ e = EEOF end.
+Proof. exact oggvorbis_info_cases. Qed.
+Print Assumptions C04_OggVorbisInfo_cases.
+Theorem C04_OggVorbis_fuel : forall bytes,
+  oggvorbis_info_load bytes = prun (ogv_init (Z.to_nat (1 * zlen bytes + 1))) bytes.
+Proof. reflexivity. Qed.
+Print Assumptions C04_OggVorbis_fuel.
+
+(* the other codec header finders share the page loop; OggFileType.load maps their EOFError the same way *)
+Theorem C04_OggOpus_total : forall bytes,
+  match oggopus_load bytes with Ok _ => True | Raise e => e = EMutagen end.
+Proof. exact oggopus_total. Qed.
+Print Assumptions C04_OggOpus_total.
+Theorem C04_OggSpeex_total : forall bytes,
+  match oggspeex_load bytes with Ok _ => True | Raise e => e = EMutagen end.
+Proof. exact oggspeex_total. Qed.
+Print Assumptions C04_OggSpeex_total.
+Theorem C04_OggTheora_total : forall bytes,
+  match oggtheora_load bytes with Ok _ => True | Raise e => e = EMutagen end.
+Proof. exact oggtheora_total. Qed.
+Print Assumptions C04_OggTheora_total.
+
+(* ---- 6. APEv2: _APEv2Data.__init__ (__find_metadata, __fill_missing, __fix_brokenness) ---- *)
+Theorem C04_APEv2Data_total : forall bytes, c04_input bytes ->
+  match apev2data_load bytes with Ok _ => True | Raise e => e = EMutagen end.
+Proof. exact apev2data_total. Qed.
+Print Assumptions C04_APEv2Data_total.
+Theorem C04_APEv2Data_fuel : forall bytes,
+  apev2data_load bytes = prun (ape_init (Z.to_nat (1 * zlen bytes + 34))) bytes.
+Proof. reflexivity. Qed.
+Print Assumptions C04_APEv2Data_fuel.
+
+(* ---- 7. ID3: ID3Header.__init__ (no loop) ---- *)
+Theorem C04_ID3Header_total : forall bytes, c04_input bytes ->
+  match id3header_load bytes with Ok _ => True | Raise e => e = EMutagen end.
+Proof. exact id3header_total. Qed.
+Print Assumptions C04_ID3Header_total.
+
+(* ---- 8. MP4: Atom.__init__ / Atoms.__init__ (recursive container parse) under MP4.load's mapping ---- *)
+Theorem C04_MP4_total : forall bytes, c04_input bytes ->
+  match mp4_atoms_load bytes with Ok _ => True | Raise e => e = EMutagen end.
+Proof. exact mp4_total. Qed.
+Print Assumptions C04_MP4_total.
+(* Atoms(fileobj) on its own lets exactly AtomError (represented by EAssert) out *)
+Theorem C04_MP4Atoms_cases : forall bytes, zlen bytes < c04_two62 ->
+  match mp4_atoms_raw bytes with Ok _ => True | Raise e => e = EAtom end.
+Proof. exact mp4_atoms_raw_cases. Qed.
+Print Assumptions C04_MP4Atoms_cases.
+Theorem C04_MP4_fuel : forall bytes,
+  mp4_atoms_raw bytes = prun (mp4_atoms (Z.to_nat (1 * zlen bytes + 3))) bytes.
+Proof. reflexivity. Qed.
+Print Assumptions C04_MP4_fuel.
+
+(* ---- 9. fixed-size header readers (no loop) ---- *)
+Theorem C04_TrueAudio_total : forall bytes,
+  match trueaudio_load bytes with Ok _ => True | Raise e => e = EMutagen end.
+Proof. exact trueaudio_total. Qed.
+Print Assumptions C04_TrueAudio_total.
+Theorem C04_MonkeysAudio_total : forall bytes,
+  match monkeysaudio_load bytes with Ok _ => True | Raise e => e = EMutagen end.
+Proof. exact monkeysaudio_total. Qed.
+Print Assumptions C04_MonkeysAudio_total.
+Theorem C04_OptimFROG_total : forall bytes, c04_input bytes ->
+  match optimfrog_load bytes with Ok _ => True | Raise e => e = EMutagen end.
+Proof. exact optimfrog_total. Qed.
+Print Assumptions C04_OptimFROG_total.
+
+(* ---- non-vacuity: a valid header is accepted, a truncated one is rejected with EMutagen; and the
+   inputs of the escapes repaired in /repo are rejected with EMutagen by the mirrors of the repaired code ---- *)
 Definition ex_sv8 : list Z :=
   [77;80;67;75; 83;72;12; 0;0;0;0; 8; 100; 0; 0;16;  82;71;12; 1;0;0;0;0;0;0;0;0;  65;80;3].
 Example C04_Musepack_ex_ok :
@@ -30,10 +142,91 @@ Example C04_Musepack_ex_ok :
 Proof. vm_compute. split; reflexivity. Qed.
 Example C04_Musepack_ex_truncated : musepack_load (firstn 14 ex_sv8) = Raise EMutagen.
 Proof. vm_compute. reflexivity. Qed.
-(* regression inputs of the repaired escapes: packet smaller than its header (was an endless loop),
-   unknown packet with a 2^63-ish size (was OverflowError from seek) *)
 Example C04_Musepack_ex_small_packet : musepack_load ([77;80;67;75; 88;88;0] ++ repeat 0 40) = Raise EMutagen.
 Proof. vm_compute. reflexivity. Qed.
 Example C04_Musepack_ex_huge_skip :
   musepack_load [77;80;67;75; 88;88; 255;255;255;255;255;255;255;255;127] = Raise EMutagen.
 Proof. vm_compute. reflexivity. Qed.
+
+Definition ex_wv (flags3 : Z) : list Z :=
+  [119;118;112;107; 24;0;0;0; 7;4; 0;0; 232;3;0;0; 0;0;0;0; 10;0;0;0; 1;0;128;flags3; 0;0;0;0].
+Example C04_WavPack_ex_ok : rmap wv_info_list (wavpack_load (ex_wv 4)) = Ok [1031; 2; 44100; 16; 1000].
+Proof. vm_compute. reflexivity. Qed.
+Example C04_WavPack_ex_rate15 : wavpack_load (ex_wv 7) = Raise EMutagen.        (* RATES[15]: was IndexError *)
+Proof. vm_compute. reflexivity. Qed.
+Example C04_WavPack_ex_truncated : wavpack_load (firstn 31 (ex_wv 4)) = Raise EMutagen.
+Proof. vm_compute. reflexivity. Qed.
+
+Definition ex_mid (track : list Z) : list Z :=
+  [77;84;104;100; 0;0;0;6; 0;0; 0;1; 0;96; 77;84;114;107; 0;0;0;zlen track] ++ track.
+Example C04_SMF_ex_ok :
+  rmap smf_info_list (smf_load (ex_mid [0;255;81;3;7;161;32; 16;144;64;64; 16;64;0])) = Ok [96; 1; 2; 0;500000; 32;500000].
+Proof. vm_compute. reflexivity. Qed.
+Example C04_SMF_ex_truncated_event : smf_load (ex_mid [0]) = Raise EMutagen.
+Proof. vm_compute. reflexivity. Qed.
+Example C04_SMF_ex_huge_delta :                                               (* was OverflowError *)
+  smf_load (ex_mid (repeat 255 150 ++ [0;144;64;64])) = Raise EMutagen.
+Proof. vm_compute. reflexivity. Qed.
+
+Definition ex_vc : list Z := [1;0;0;0; 118; 2;0;0;0; 3;0;0;0; 97;61;98; 1;0;0;0; 120; 1].
+Example C04_VComment_ex_ok : rmap vc_info_list (vcomment_load ex_vc) = Ok [1; 2; 2; 22].
+Proof. vm_compute. reflexivity. Qed.
+Example C04_VComment_ex_no_framing : vcomment_load (firstn 21 ex_vc) = Raise EMutagen.   (* was IndexError *)
+Proof. vm_compute. reflexivity. Qed.
+Example C04_VComment_ex_count : vcomment_load [0;0;0;0; 255;255;255;255; 1] = Raise EMutagen.
+Proof. vm_compute. reflexivity. Qed.
+
+Definition ex_ogg (nseg : list Z) (body : list Z) : list Z :=
+  [79;103;103;83; 0; 2; 0;0;0;0;0;0;0;0; 1;0;0;0; 0;0;0;0; 0;0;0;0; zlen nseg] ++ nseg ++ body.
+Definition ex_vorbis_id : list Z :=
+  [1;118;111;114;98;105;115; 0;0;0;0; 2; 68;172;0;0; 0;0;0;0; 0;244;1;0; 0;0;0;0; 184;1].
+Example C04_OggVorbis_ex_ok : rmap ogv_info_list (oggvorbis_load (ex_ogg [30] ex_vorbis_id)) = Ok [2; 44100; 128000; 1].
+Proof. vm_compute. reflexivity. Qed.
+Example C04_OggVorbis_ex_empty_page : oggvorbis_load (ex_ogg [] []) = Raise EMutagen.     (* was IndexError *)
+Proof. vm_compute. reflexivity. Qed.
+Example C04_OggVorbis_ex_eof :
+  oggvorbis_info_load (ex_ogg [1] [9]) = Raise EEOF /\ oggvorbis_load (ex_ogg [1] [9]) = Raise EMutagen.
+Proof. vm_compute. split; reflexivity. Qed.
+
+Example C04_OggOpus_ex :
+  oggopus_load (ex_ogg [19] [79;112;117;115;72;101;97;100; 1; 2; 56;1; 128;187;0;0; 0;0; 0]) = Ok [2; 312; 1] /\
+  oggopus_load (ex_ogg [18] [79;112;117;115;72;101;97;100; 1; 2; 56;1; 128;187;0;0; 0;0]) = Raise EMutagen.   (* was struct.error *)
+Proof. vm_compute. split; reflexivity. Qed.
+Example C04_OggSpeex_ex_short : oggspeex_load (ex_ogg [8] [83;112;101;101;120;32;32;32]) = Raise EMutagen.     (* was struct.error *)
+Proof. vm_compute. reflexivity. Qed.
+
+Definition ex_ape : list Z :=
+  [65;80;69;84;65;71;69;88; 208;7;0;0; 32;0;0;0; 0;0;0;0; 0;0;0;0; 0;0;0;0;0;0;0;0].
+Example C04_APEv2Data_ex_ok :
+  rmap ape_data_list (apev2data_load ([1;2;3] ++ ex_ape)) = Ok [3; 3; 3; 3; 35; 0; 0; 0; 0; 0].
+Proof. vm_compute. reflexivity. Qed.
+Example C04_APEv2Data_ex_none : rmap ape_data_list (apev2data_load [1;2;3]) = Ok [].
+Proof. vm_compute. reflexivity. Qed.
+Example C04_APEv2Data_ex_size_too_big :                                                 (* was ValueError *)
+  apev2data_load ([1;2;3] ++ firstn 12 ex_ape ++ [200] ++ skipn 13 ex_ape) = Raise EMutagen.
+Proof. vm_compute. reflexivity. Qed.
+
+Example C04_ID3Header_ex_ok : id3header_load [73;68;51; 4;0; 0; 0;0;2;1; 9;9] = Ok [4; 0; 0; 267; -1; 10].
+Proof. vm_compute. reflexivity. Qed.
+Example C04_ID3Header_ex_truncated : id3header_load [73;68;51; 4;0; 0; 0;0;2] = Raise EMutagen.
+Proof. vm_compute. reflexivity. Qed.
+Example C04_ID3Header_ex_short_ext : id3header_load [73;68;51; 4;0; 64; 0;0;2;1; 0;0;0;12; 1] = Raise EMutagen.
+Proof. vm_compute. reflexivity. Qed.
+
+Definition ex_moov (n : nat) : list Z := concat (repeat [0;15;255;255; 109;111;111;118] n).
+Example C04_MP4_ex_ok :
+  rmap mp4_flat_list (mp4_atoms_load ([0;0;0;16; 109;111;111;118; 0;0;0;8; 102;114;101;101] ++ [0;0;0;9; 102;114;101;101; 7]))
+  = Ok [0;0;16;1836019574;8;  1;8;8;1718773093;16;  0;16;9;1718773093;24].
+Proof. vm_compute. reflexivity. Qed.
+Example C04_MP4_ex_truncated : mp4_atoms_load ([0;0;0;16; 109;111;111;118; 0;0;0;8; 102;114]) = Raise EMutagen.
+Proof. vm_compute. reflexivity. Qed.
+Example C04_MP4_ex_deep_nesting : mp4_atoms_load (ex_moov 1200) = Raise EMutagen.     (* was RecursionError *)
+Proof. vm_compute. reflexivity. Qed.
+Example C04_MP4_ex_huge_64bit :                                                        (* was OverflowError *)
+  mp4_atoms_load [0;0;0;1; 102;114;101;101; 255;255;255;255;255;255;255;255] = Raise EMutagen.
+Proof. vm_compute. reflexivity. Qed.
+
+Example C04_TrueAudio_ex :
+  trueaudio_load ([84;84;65;49; 1;0;2;0;16;0; 68;172;0;0; 16;39;0;0] ++ [0;0;0;0]) = Ok [44100; 10000] /\
+  trueaudio_load [84;84;65;49; 1;0;2;0;16;0; 68;172;0;0; 16;39;0] = Raise EMutagen.
+Proof. vm_compute. split; reflexivity. Qed.
